@@ -1,6 +1,7 @@
 """C01 -- group scoping: TexGroups.tla bound to the real VM (edge programs + deep traces)."""
 import json
 from vlib import *
+from texvm import texvm_part, texvm_selftest
 
 LEVEL = "model_checking"
 DEVS = {"gdef-ignores-negative-globaldefs": "Trace_TexGroups_dev.cfg"}
@@ -58,6 +59,8 @@ def run(ctx):
         "assigning 'undefined' (\\let\\a=\\undefinedcs) is a no-op in texlang and is not generated",
         "reads use \\the, macro expansion and \\fontname\\font; the harness's undefined-command handler reports <UNDEF:name>",
     ]
+    # ---- the composed model: whole programs over the full primitive set (TexVM.tla) ------------
+    texvm_part(ctx, 6000 if ctx.quick else 120000, 101)
 
 
 def selftest(ctx):
